@@ -1742,6 +1742,12 @@ def run_c05(ctx):
             if r is not None:
                 t2 = r
         cases.append(ctx.case("grammar", t2, cfg, meta={"marks": idx}))
+        if rng.random() < 0.3:
+            # the same program behind a directive-only conditional block: the parser then makes several passes over it (token
+            # types consolidated by one pass are seen by the next); the marks move by the block's non-blank characters
+            pre = rng.choice(["{$IFDEF A}{$DEFINE B}{$ELSE}{$DEFINE C}{$ENDIF}\n", "{$IF X}{$R a.res}{$ELSEIF Y}{$R b.res}{$ELSE}{$R d.res}{$IFEND}\n"])
+            k = len(re.sub(r"\s", "", pre))
+            cases.append(ctx.case("grammar-after-directives", pre + t2, cfg, meta={"marks": [(i + k, d, kd) for i, d, kd in idx]}))
 
     # the witnesses of the listed C05 findings carry their own marks: [substring whose first character is marked, depth, kind]
     from . import findings as _f5
